@@ -1,5 +1,6 @@
 import SlipVerif.Model.History
 import SlipVerif.Lemmas.History
+import SlipVerif.Lemmas.HistoryExt
 import SlipVerif.Gen.HistoryCode
 /-
   C20 — obligations over facts regenerated from pkg/repl/history.go and stash.go on every run
@@ -29,13 +30,67 @@ theorem opens_append_create :
 /-- exactly these opens exist, and the rewrites (Clear) truncate while the appends do not -/
 theorem opens_shape :
     opens.map (fun o => (o.1, o.2.1, o.2.2.contains "O_TRUNC")) =
-      [("History.Add", "tmp", true), ("History.Add", "h.filename", false), ("History.Clear", "h.filename", true),
-       ("Stash.Add", "s.filename", false), ("Stash.Clear", "s.filename", true)] := by decide
+      [("History.Add", "tmp", true), ("History.Add", "file", false), ("History.Clear", "file", true),
+       ("Stash.Add", "file", false), ("Stash.Clear", "file", true)] := by decide
 
-/-- History.Add calls the file system in the order of the model's steps: compaction = open, write(s),
-close, rename; append = open, write (its close is deferred) -/
-theorem add_call_order :
-    addCalls = ["os.OpenFile", "f.Write", "f.Close", "os.Rename", "os.OpenFile", "f.Write"] := by decide
+def pathsOf (m : String) : List (List String) := (fsPaths.filter (fun e => e.1 == m)).flatMap (fun e => e.2)
+
+/-- the same paths, in any order -/
+def samePaths (a b : List (List String)) : Bool := a.all b.contains && b.all a.contains
+
+/-- the file-system calls along every path of History.Add/Clear and Stash.Add/Clear, as extracted
+(loops, if/else arms, deferred calls, helpers one level deep), are exactly the call patterns of the
+model's operations: compaction = open tmp truncating, write*, close, rename tmp → file (the rename
+after the close); append = open file appending, write, close; rewrite = open file truncating, write*,
+close. Reordering, dropping or adding a file-system call in the code breaks this obligation. -/
+theorem code_paths_are_model_patterns :
+    samePaths (pathsOf "History.Add") [compactPat, appendPat] = true ∧
+    samePaths (pathsOf "History.Clear") [rewritePat] = true ∧
+    samePaths (pathsOf "Stash.Add") [appendPat] = true ∧
+    samePaths (pathsOf "Stash.Clear") [rewritePat] = true := by decide
+
+def methodOf : Op → String
+  | .add _ => "History.Add"
+  | .clear _ _ => "History.Clear"
+  | .setLimit _ => "History.SetLimit"
+
+theorem mem_of_samePaths {a b : List (List String)} (h : samePaths a b = true) (p : List String) (hp : p ∈ b) :
+    p ∈ a := by
+  unfold samePaths at h
+  simp only [Bool.and_eq_true, List.all_eq_true] at h
+  have := h.2 p hp
+  simpa using this
+
+/-- the steps the model performs for an operation follow one of the paths extracted from the method
+that implements it (or there are none): the crash theorems quantify over the step sequences the code
+can produce -/
+theorem model_steps_follow_code_paths (h : Hist) (o : Op) :
+    (perform codeCfg h o).2 = [] ∨ ∃ p ∈ pathsOf (methodOf o), matchPat p (perform codeCfg h o).2 = true := by
+  rw [tmp_open_truncates.2]
+  obtain ⟨hA, hC, _, _⟩ := code_paths_are_model_patterns
+  rcases perform_pattern h o with h0 | hp
+  · exact Or.inl h0
+  · right
+    cases o with
+    | setLimit n => exact absurd hp (by simp)
+    | clear a b => exact ⟨rewritePat, mem_of_samePaths hC _ (by simp), hp⟩
+    | add f =>
+      rcases hp with hp | hp
+      · exact ⟨compactPat, mem_of_samePaths hA _ (by simp), hp⟩
+      · exact ⟨appendPat, mem_of_samePaths hA _ (by simp), hp⟩
+
+/-- the same for the stash -/
+theorem model_stash_steps_follow_code_paths (forms : List Form) (o : SOp) :
+    (sperform forms o).2 = [] ∨
+    ∃ p ∈ pathsOf (match o with | .add _ => "Stash.Add" | .clear _ _ => "Stash.Clear"),
+      matchPat p (sperform forms o).2 = true := by
+  obtain ⟨_, _, hA, hC⟩ := code_paths_are_model_patterns
+  rcases sperform_pattern forms o with h0 | hp
+  · exact Or.inl h0
+  · right
+    cases o with
+    | clear a b => exact ⟨rewritePat, mem_of_samePaths hC _ (by simp), hp⟩
+    | add f => exact ⟨appendPat, mem_of_samePaths hA _ (by simp), hp⟩
 
 /-- the crash theorem instantiated for the code as extracted -/
 theorem crash_consistent_for_code (w : World) (hinv : Inv w) (o : Op) (ho : OpOK o) (k : Nat) :
